@@ -66,6 +66,7 @@ func (w *World) verifyFunc(sel string, con *Contract) *FuncResult {
 		res.SpecErrors = append(res.SpecErrors, fmt.Sprintf("%s:%d: %s has signature %s, contract expects %s", con.File, con.Line, sel, shortName(fn.Signature.String()), con.Expect))
 		return res
 	}
+	var replayInfo *ReplayInfo
 	ex := newExec(w, fn, sel, con)
 	ex.uncontracted = map[string]bool{}
 	ex.specErrors = map[string]bool{}
@@ -166,6 +167,10 @@ func (w *World) verifyFunc(sel string, con *Contract) *FuncResult {
 		// interface requires are available to implementations too (weaker or equal precondition is checked by impl-pre)
 		ex.entry = st.snapshot()
 		ex.entryPC = len(st.pc)
+		func() {
+			defer func() { recover() }()
+			replayInfo = ex.prepareReplay(st, fn, args)
+		}()
 		ex.coverEntry(st)
 		ex.enter(st, fn, args, fvs, func(st2 *State, results []Value) { ex.checkPost(st2, results) })
 	})
@@ -194,6 +199,7 @@ func (w *World) verifyFunc(sel string, con *Contract) *FuncResult {
 		ob.Trusted = ex.d.trusted()
 		ob.ifacePreds = ex.ifacePreds
 		ob.world = w
+		ob.Replay = replayInfo
 	}
 	return res
 }
